@@ -3848,6 +3848,9 @@ def _fix_duplicate_from_imports(source: str) -> str:
         module_import_nodes = collections.defaultdict(list)
 
         for node in group:
+            if any(alias.name == "*" for alias in node.names):
+                # A starred import cannot be combined with named ones
+                continue
             module_import_aliases[node.module].update(
                 (alias.name, alias.asname if alias.asname != alias.name else None)
                 for alias in node.names
